@@ -674,7 +674,57 @@ func cmdSSA(args []string) int {
 }
 
 // permScan checks "shared atomic T.f": every access to field f of T in the package goes through sync/atomic.
+// completeScan: `shared complete T`: the protocol of T (its representation invariant, what may be sent to the wrapped
+// object and when) is specified method by method, so every method T or *T has in its package must be under contract -
+// a method added later cannot silently bypass the protocol.
+func completeScan(g *Gen, sc SharedClause) *FnVC {
+	short := strings.TrimPrefix(sc.Pkg, modulePath+"/")
+	f := g.newFnVC(nil, nil, short+".complete."+sc.Type)
+	f.genErr = "perm"
+	var missing []string
+	n := 0
+	if pkg := g.ssaPkgs[sc.Pkg]; pkg != nil {
+		if tm, ok := pkg.Members[sc.Type].(*ssa.Type); ok {
+			seen := map[string]bool{}
+			for _, t := range []types.Type{tm.Type(), types.NewPointer(tm.Type())} {
+				ms := g.prog.MethodSets.MethodSet(t)
+				for i := 0; i < ms.Len(); i++ {
+					fn := g.prog.MethodValue(ms.At(i))
+					if fn == nil || fn.Pkg != pkg || fn.Synthetic != "" {
+						continue // promoted from an embedded field of another package, or a wrapper
+					}
+					key := fn.RelString(pkg.Pkg)
+					if seen[key] {
+						continue
+					}
+					seen[key] = true
+					n++
+					if _, has := g.specs.Contracts[sc.Pkg+"."+key]; !has {
+						missing = append(missing, key)
+					}
+				}
+			}
+		} else {
+			missing = append(missing, "type "+sc.Type+" not found")
+		}
+	}
+	ob := &Obl{ID: 0, Fn: f.key, Kind: "perm.complete", Text: fmt.Sprintf("every method of %s is under contract (%d methods)", sc.Type, n), Cond: "true", Solver: "ssa-scan"}
+	if len(missing) == 0 {
+		ob.Status = "proved"
+	} else {
+		sort.Strings(missing)
+		ob.Status = "failed"
+		ob.Output = "no contract for: " + strings.Join(missing, ", ")
+		ob.ReplayLog = ob.Output
+	}
+	f.obls = append(f.obls, ob)
+	return f
+}
+
 func permScan(g *Gen, sc SharedClause) *FnVC {
+	if sc.Kind == "complete" {
+		return completeScan(g, sc)
+	}
 	short := strings.TrimPrefix(sc.Pkg, modulePath+"/")
 	f := g.newFnVC(nil, nil, short+".perm")
 	f.genErr = "perm"
